@@ -48,6 +48,7 @@ def c01(tier, seed):
     c.require("positions", 100000 if q else 5000000)
     c.require("synth:ep-matrix", 1000)
     c.require("uci-perft-counts-compared", 100)
+    c.require("perft-differentials", 5000)
     return c.finish()
 
 
@@ -406,10 +407,12 @@ def c09(tier, seed):
               "search just stored for the root, with and without epoch bump), time/clock/movestogo limits terminate (node-visit cap as "
               "logical witness), depth limits 39/40/41/42/60/100/1000 on cheap positions; non-trivial = distinct (position, go, table)")
     c.assumptions = SEARCH_ASSUME + ["termination for large depth limits is decided on cheap positions only (bounded restatement, DESIGN.md C09)"]
-    res = _uci("multigame", seed + 3, 24 if q else 400) + _uci("deepdepth", seed + 3, 14 if q else 56)
+    res = _uci("multigame", seed + 3, 24 if q else 400) + _uci("deepdepth", seed + 3, 14 if q else 56) + \
+        _uci("smpromo", seed + 3, 32 if q else 400)
     _uci_crashes(c, res)
     _uci_judge(c, "C09", res)
     c.require("uci-go-commands-judged", 200)
+    c.require("roots:mate-positions", 200)
     c.require("deep-limit-searches", 80)
     c.require("searches:root-entry-outside-S:epoch-bumped", 50)
     c.require("searches:root-entry-outside-S:same-epoch", 50)
